@@ -1,4 +1,4 @@
-# replay of C34/runpp/passed-overrides-stored[algorithm]@p7xp0
+# replay of C34/runpp/passed-overrides-stored[algorithm]@p10xp0
 # scenario: net.user_pf_options stores 'algorithm'; runpp is called with 'algorithm' passed explicitly.
 # oracle (property C34): the options the power flow runs with must not depend on the stored entry.
 import sys, copy
